@@ -90,11 +90,6 @@ pub assume_specification<T, P: FnOnce(&T) -> bool> [Option::<T>::filter] (o: Opt
         None => r is None,
         Some(v) => (r == Some(v) && call_ensures(p, (&v,), true)) || (r is None && call_ensures(p, (&v,), false)),
     };
-// Option::map_or: "Returns the provided default result (if none), or applies a function to the contained value (if any)"
-pub assume_specification<T, U, F: FnOnce(T) -> U> [Option::<T>::map_or] (o: Option<T>, default: U, f: F) -> (r: U)
-    where T: core::marker::Destruct, U: core::marker::Destruct
-    requires o is Some ==> call_requires(f, (o->Some_0,)),
-    ensures match o { None => r == default, Some(v) => call_ensures(f, (v,), r) };
 // ---- stun-rs/src/error.rs : diagnostics text and boxed causes are opaque; the error *type* is kept
 pub struct FmtString;
 #[verifier::external_body]
